@@ -447,12 +447,20 @@ static std::string op_traj(const std::vector<std::string>& w)
         out += " dur=" + U(d1) + "," + fhex(d1s) + "," + code(e2) + "," + U(d2) + "," + code(e3) + "," + U(st.duration_msec) + "," + U(st.duration_sec) + " nseg=" + (e4 == SB_SUCCESS ? S(nseg) : code(e4));
     }
     sb_trajectory_player_t hp;
-    sb_trajectory_player_init(&hp, &tr);
+    sb_error_t ehp = sb_trajectory_player_init(&hp, &tr);
     for (const std::string& q : csv(w[3])) {
         char kind = q[0];
         float t = f_of_hex(q.substr(1));
         sb_trajectory_player_t fp;
-        sb_trajectory_player_init(&fp, &tr);
+        sb_error_t efp = sb_trajectory_player_init(&fp, &tr);
+        if (efp != SB_SUCCESS || ehp != SB_SUCCESS) {
+            // a player that could not be initialised is not queried
+            out += std::string(" ") + kind + ":" + code(efp != SB_SUCCESS ? efp : ehp);
+            if (hist) {
+                out += (efp == ehp) ? ":=" : ":X";
+            }
+            continue;
+        }
         sb_vector3_with_yaw_t vf, vh;
         memset(&vf, 0x5A, sizeof vf);
         memset(&vh, 0x5A, sizeof vh);
@@ -501,6 +509,78 @@ static std::string op_traj(const std::vector<std::string>& w)
     return out;
 }
 
+// yaw <mode f|h> <hex> <queries>: y = yaw, r = yaw rate, d = total duration
+static std::string op_yaw(const std::vector<std::string>& w)
+{
+    bool hist = w[1] == "h";
+    std::vector<uint8_t> b = unhex(w[2]);
+    Guarded g(b);
+    sb_yaw_control_t yc;
+    sb_error_t e = sb_yaw_control_init_from_buffer(&yc, g.ptr, g.n);
+    if (e != SB_SUCCESS) {
+        return "init:" + code(e);
+    }
+    sb_yaw_player_t hp;
+    sb_yaw_player_init(&hp, &yc);
+    uint32_t dur = 0;
+    {
+        sb_yaw_player_t tp;
+        sb_yaw_player_init(&tp, &yc);
+        sb_yaw_player_get_total_duration_msec(&tp, &dur);
+        sb_yaw_player_destroy(&tp);
+    }
+    std::string out = "init:0 auto=" + S(yc.auto_yaw ? 1 : 0) + " off=" + S(yc.yaw_offset_ddeg) + " n=" + U(yc.num_deltas)
+        + " empty=" + S(sb_yaw_control_is_empty(&yc) ? 1 : 0) + " dur=" + U(dur);
+    for (const std::string& q : csv(w[3])) {
+        char kind = q[0];
+        float t = f_of_hex(q.substr(1));
+        sb_yaw_player_t fp;
+        sb_yaw_player_init(&fp, &yc);
+        float vf = -12345.0f, vh = -12345.0f;
+        sb_error_t ef = SB_SUCCESS, eh = SB_SUCCESS;
+        uint32_t df = 0, dh = 0;
+        if (kind == 'y') {
+            ef = sb_yaw_player_get_yaw_at(&fp, t, &vf);
+            if (hist) eh = sb_yaw_player_get_yaw_at(&hp, t, &vh);
+        } else if (kind == 'r') {
+            ef = sb_yaw_player_get_yaw_rate_at(&fp, t, &vf);
+            if (hist) eh = sb_yaw_player_get_yaw_rate_at(&hp, t, &vh);
+        } else {
+            ef = sb_yaw_player_get_total_duration_msec(&fp, &df);
+            if (hist) eh = sb_yaw_player_get_total_duration_msec(&hp, &dh);
+        }
+        const sb_yaw_player_t* used = hist ? &hp : &fp;
+        sb_error_t eu = hist ? eh : ef;
+        float vu = hist ? vh : vf;
+        out += std::string(" ") + kind + ":" + code(eu);
+        if (eu == SB_SUCCESS) {
+            if (kind == 'd') {
+                out += ":" + U(hist ? dh : df);
+            } else {
+                out += ":" + fhex(vu) + ":" + U(used->current_setpoint.start);
+            }
+        }
+        if (hist) {
+            if (ef != eh) {
+                out += ":X";
+            } else if (kind == 'd') {
+                out += (df == dh) ? ":=" : ":X";
+            } else if (ef != SB_SUCCESS || memcmp(&vf, &vh, sizeof vf) == 0) {
+                out += ":=";
+            } else {
+                float tt = t <= 0 ? 0 : t;
+                bool hist_next = hp.current_setpoint.data.start_time_sec == tt && fp.current_setpoint.data.end_time_sec == tt;
+                bool hist_prev = hp.current_setpoint.data.end_time_sec == tt && fp.current_setpoint.data.start_time_sec == tt;
+                out += (hist_next || hist_prev) ? ":b" : ":X";
+            }
+        }
+        sb_yaw_player_destroy(&fp);
+    }
+    sb_yaw_player_destroy(&hp);
+    sb_yaw_control_destroy(&yc);
+    return out;
+}
+
 static std::string op_crc(const std::vector<std::string>& w)
 {
     // crc <init> <hex> <split points, csv or ->: successive calls on the pieces
@@ -546,6 +626,9 @@ static std::string run_case(const std::vector<std::string>& w)
     }
     if (op == "file") {
         return op_file(w);
+    }
+    if (op == "yaw") {
+        return op_yaw(w);
     }
     if (op == "traj") {
         return op_traj(w);
